@@ -348,6 +348,11 @@ def run_property(pid, tier="quick", seed=0, jobs=None):
         o = inst[0]
         rp = o.get("replay")
         reproduced = bool(rp and rp.get("reproduced"))
+        if reproduced and all(x.get("private_unit") for x in inst):
+            # a counter-model that replays on a *private* helper shows that the helper no longer meets my contract for it, not
+            # that the property fails: its interface may have changed together with its callers. Only an input of the public
+            # API (the statement-level search, a public stand-in) makes it a violation.
+            reproduced = False
         witness = None
         if not reproduced and hasattr(mod, "witness_search"):
             if "w" not in witness_cache:
